@@ -361,6 +361,14 @@ def _process(path, out, repo, verif_root, canary, depth, subst=()):
             out.emit(text, Origin(kind="const", src="%s:%d" % (file, line)))
             out.shape_checks.append("const %s from %s:%d" % (name, file, line))
             i += 1
+        elif st.startswith("//@static-as-const"):
+            # an immutable `static` of plain data read by the code under contract: emitted as a `const` of the same text
+            _, file, name = st.split()[:3]
+            text, line = find_const(repo, file, name, keyword="static")
+            text = "pub const" + text[len("static"):]
+            out.emit(text, Origin(kind="const", src="%s:%d" % (file, line)))
+            out.shape_checks.append("static %s from %s:%d (as const)" % (name, file, line))
+            i += 1
         elif st.startswith("//@expect-struct"):
             parts = st.split(None, 3)
             file, name, want = parts[1], parts[2], parts[3]
